@@ -323,6 +323,11 @@ def run(ctx):
 def null_terminated(ctx, fi, paths, rule="C08.R2"):
     # a unit that is not the terminator is appended, unchanged, at the end of the region data before the next unit is read
     steps = [(evs, env_) for p in paths[:1] for lid, evs, env_ in p.loop_steps]
+    if not steps and any(e.kind == "LOOP" and any(x.kind == "READ" and x.loops and x.loops[-1] == e["lid"] for x in p.events) for p in paths for e in p.events):
+        # the unit loop is not an unbounded loop left by break/return (e.g. a flag loop `while not terminated`): the induction below has no
+        # continuing iteration to start from -- undecided, not violated
+        ctx.error("%s undecided: NullTerminated._parse reads its units in a loop that is governed by a condition, not left by break/return; the terminator rules know the `while True` form only" % rule)
+        return
     okstep = bool(steps)
     family = "bytes"
     for evs, env_ in steps:
